@@ -49,6 +49,40 @@ def run(ctx):
             sig = "%s:%s" % (m["kind"], c["tree"]["op"])
             common.report(ctx, sig, "`%s` (style %d): spec says %s, interpreter gave %s" % (m["expr"], m["style"], m["want"], m["got"]),
                           dict(tree=c["tree"], ops=ops, spec_out=c["out"], spec_val=c["val"], spec_probe_order=c["ord"], mismatch=m))
+    # ---- IEEE facet: slot trees + lowered primitive code from TLC, doubles from the pool below
+    itxt, iinfo = common.tlc(ctx, "MC_ZnExpr_I", "MC_ZnExpr_I.cfg", workers=2, timeout=900)
+    ivecs = common.vectors(itxt, "iexpr")
+    if len(ivecs) < 20000:
+        raise common.NoVerdict("too few family-I vectors from TLC: %d" % len(ivecs))
+    POOL = ["0", "-0", "1", "-1", "2", "3", "-7", "7", "0.5", "2.5", "0.1", "0.3", "0.01", "4.35", "1e300", "-1e300", "1e308", "1.7976931348623157e308",
+            "5e-324", "1e-300", "9007199254740992", "9007199254740993", "+Inf", "-Inf", "NaN"]
+    icases = []
+    per = 2 if ctx.tier == "quick" else 12
+    for i, v in enumerate(ivecs):
+        nslots = max([t["id"] for t in v["mt"] if t["k"] == "slot"] or [0])
+        if nslots == 0:
+            continue
+        if len(v["mt"]) == 3 and nslots == 2:       # family IA: one operator, every ordered pair of pool values
+            vals = [[a, b] for a in POOL for b in POOL]
+        else:
+            vals = [[rnd.choice(POOL) for _ in range(nslots)] for _ in range(per)]
+        icases.append(dict(id=len(icases), mt=v["mt"], code=v["code"], vals=vals, style=(i + ctx.seed) % 2))
+    ires = common.run_harness(ctx, znh, "iexpr", icases, timeout=3000)
+    if len(ires) != len(icases):
+        raise common.NoVerdict("harness returned %d results for %d family-I cases" % (len(ires), len(icases)))
+    iruns = 0
+    for r in ires:
+        c = icases[r["id"]]
+        if r["obs"] != "done":
+            common.report(ctx, "driver:%s" % r["obs"], "observation %s: %s" % (r["obs"], r.get("detail", "")), dict(case=c["mt"], result=r))
+            continue
+        iruns += r["runs"]
+        for m in r.get("mism") or []:
+            ops = sorted(set(t["op"] for t in c["mt"] if t["k"] == "op"))
+            common.report(ctx, "%s:%s" % (m["kind"], "+".join(ops) if len(ops) == 1 else "chain"),
+                          "`%s` with slots %s: lowered code over float64 gives %s, interpreter gave %s" % (m["expr"], m["vals"], m["want"], m["got"]),
+                          dict(expr=m["expr"], slots=m["vals"], lowered_code=c["code"], mismatch=m))
+    runs += iruns
     sample = rnd.sample(vecs, 4)
     cov = dict(
         traces_validated_against_impl=runs,
@@ -59,14 +93,19 @@ def run(ctx):
              "type-directed leaf assignments; family R (thorough): TLC RandomElement trees of depth<=4. Each tree is compiled to the spec's "
              "stack machine, TLC checks machine = reference evaluator in every terminal state, and emits tree + minimal-brace token list + "
              "expected value/error + probe order; every vector runs in several spellings through Interpreter.Execute. Non-trivial = vectors "
-             "whose expected outcome is a value or an error (not the magnitude guard)",
+             "whose expected outcome is a value or an error (not the magnitude guard). IEEE facet (family I): the same operator-triple trees with "
+             "numeric leaves replaced by slots, LOWERED by the spec to primitive code (+ - * / floor, ordered comparisons, ==; TLC invariant "
+             "LoweringAgrees: the lowered code over exact rationals = the reference evaluator on every tree of families A/B/R); the harness runs "
+             "the lowered code over float64 with slot values from a 25-value pool (0, -0, 0.1, 4.35, 2^53+1, 1e308, 5e-324, +-Inf, NaN, ...): "
+             "every operator x every ordered pair, random assignments for the triples; results compared bit for bit",
+        ieee_cases=len(icases), ieee_runs=iruns,
         vectors=len(vecs), expected_values=outs["done"], expected_errors=outs["err"], skipped_magnitude_guard=outs["big"],
         exhaustive=(ctx.tier == "quick"),
         checker_cmd="tlc -config MC_ZnExpr_{A,B,R}.cfg ZnExpr.tla",
     )
     assumptions = [
         "numbers in the spec are exact rationals; on vectors flagged exact (all intermediates dyadic) IEEE-754 arithmetic is exact and results are compared bit-exactly, otherwise within 1e-12 relative; vectors where floor/remainder/comparison consumed a non-dyadic value are compared for error-vs-value only",
-        "IEEE extremes (huge/tiny/non-finite doubles) are outside what TLA+ integers can state (DESIGN section 6)",
+        "IEEE facet: the primitives + - * / floor < > <= >= == on two doubles are Go's float64 operations (trusted); what each Zn operator means in terms of them is the spec's lowering",
         "numeric literal spellings are produced by the harness for the 8 pool values (all exactly representable decimals); what a spelling denotes is C04's subject",
     ]
     return cov, assumptions
